@@ -139,6 +139,11 @@ Definition no_faults : faults :=
 Inductive rentry :=
 | RGood (so se : bytes) (outs : outputs)   (* a well-formed entry: stdout, stderr, objects *)
 | RUnparse                                 (* a file that is not a (complete) zip archive *)
+| RBadObj                                  (* archive intact, bytes changed IN PLACE inside an object member's data:
+                                              the member no longer decodes or fails its CRC-32 (that this is always
+                                              detected is C08's theorem) -> DecompressionFailure at extraction *)
+| RBadOut                                  (* likewise inside the stdout / stderr member: detected when the hit
+                                              reads them, before anything is extracted *)
 | RGone.                                   (* indexed by the LRU, file deleted behind its back *)
 
 Inductive ppentry :=
@@ -256,7 +261,8 @@ Definition cache_lookup (f : faults) (cc : cache_control) (k : key) (st : cstate
           match kv_get k (cs_res st) with
           | None => LMiss MNormal
           | Some (RGood so se outs) => if f_outdir_ok f then LHit so se outs else LFatal
-          | Some RUnparse | Some RGone => LMiss MReadError
+          | Some RUnparse | Some RGone | Some RBadOut => LMiss MReadError
+          | Some RBadObj => if f_outdir_ok f then LMiss MReadError else LFatal
           end
       end
   end.
@@ -327,15 +333,25 @@ Definition request (f : faults) (cl : req_class) (cc : cache_control) (o : oracl
 
 (* ---------- what happens to the cache between requests ---------- *)
 
-Inductive damage := DGarbage | DTruncate | DEmpty | DDelete.
+Inductive damage :=
+| DGarbage | DTruncate | DEmpty | DDelete
+| DFlipObj                       (* bytes changed in place inside the data of an object member *)
+| DFlipOut.                      (* ... inside the data of the stdout / stderr member *)
 
 (* per-file damage to the RESULT entry under key k (only an existing file can be damaged) *)
 Definition damage_res (d : damage) (k : key) (st : cstate) : cstate :=
   match kv_get k (cs_res st) with
-  | Some (RGood _ _ _) | Some RUnparse =>
-      {| cs_res := kv_set k (match d with DDelete => RGone | _ => RUnparse end) (cs_res st);
-         cs_pp := cs_pp st; cs_ro := cs_ro st |}
   | Some RGone | None => st
+  | Some e =>
+      let e' := match d, e with
+                | DDelete, _ => RGone
+                | (DGarbage | DTruncate | DEmpty), _ => RUnparse
+                | (DFlipObj | DFlipOut), RUnparse => RUnparse     (* no member left to damage *)
+                | DFlipOut, _ => RBadOut
+                | DFlipObj, RBadOut => RBadOut                    (* stdout/stderr are read first *)
+                | DFlipObj, _ => RBadObj
+                end in
+      {| cs_res := kv_set k e' (cs_res st); cs_pp := cs_pp st; cs_ro := cs_ro st |}
   end.
 
 (* per-file damage to the PREPROCESSOR-cache entry under key k *)
@@ -347,6 +363,7 @@ Definition damage_pp (d : damage) (k : key) (st : cstate) : cstate :=
                   | DDelete => kv_del k (cs_pp st)
                   | DEmpty => kv_set k PEmpty (cs_pp st)
                   | DGarbage | DTruncate => kv_set k PUnparse (cs_pp st)
+                  | DFlipObj | DFlipOut => cs_pp st               (* not applied to preprocessor entries *)
                   end;
          cs_ro := cs_ro st |}
   | None => st
